@@ -13,7 +13,7 @@
 (* stop; no demand by C13).                                                 *)
 (***************************************************************************)
 EXTENDS Gen_MsgBase, Json, TLC
-CONSTANTS CODES, PAYLOADS, FPOS, FPOS1, POSITIONS, LES   \* FPOS1: field positions tried with payload 1 only
+CONSTANTS CODES, PAYLOADS, FPOS, FPOS1, POSITIONS, LES   \* FPOS1 (if non-empty): field positions used with payload 1 instead of FPOS
 
 \* normal messages of every type with every known field and flag
 NormC(ty, le) == MkMsg([Hdr(ty, 7, Settable(ty), 3) EXCEPT !.serial = Ser(2)], B_dict, le)
@@ -23,8 +23,8 @@ Case(kind, what, odd, pos, le) == [kind |-> kind, what |-> what, odd |-> pos, st
 UnknownFlagBytes == {8, 16, 32, 64, 128, 248, 255, 10}
 Cases ==
   UNION {
-     {Case("field", [code |-> c, payload |-> p, at |-> fp], OddField(c, p, fp, le), pos, le) : c \in CODES, p \in PAYLOADS, fp \in FPOS}
-     \cup {Case("field", [code |-> c, payload |-> 1, at |-> fp], OddField(c, 1, fp, le), pos, le) : c \in CODES, fp \in FPOS1}
+     {Case("field", [code |-> c, payload |-> p, at |-> fp], OddField(c, p, fp, le), pos, le) : c \in CODES, p \in (IF FPOS1 = {} THEN PAYLOADS ELSE PAYLOADS \ {1}), fp \in FPOS}
+     \cup {Case("field", [code |-> c, payload |-> 1, at |-> fp], OddField(c, 1, fp, le), pos, le) : c \in CODES, fp \in FPOS1}   \* (set difference below: payload 1 moves from FPOS to FPOS1 when FPOS1 is non-empty)
      \cup {Case("flag", [flags |-> fl], OddFlag(fl, le), pos, le) : fl \in UnknownFlagBytes}
      \cup {Case("type", [type |-> ty], OddType(ty, le), pos, le) : ty \in 5..255}
      \cup {Case("type0", [type |-> 0], OddType(0, le), pos, le),
